@@ -230,7 +230,7 @@ def classify_exception(exc, device):
             None if cause is None else type(cause).__name__, cause is device.fired if cause is not None else False)
 
 
-def run_model(case, last_ops=None, probe_mode='touched', max_ops=2000, trace_limit=0):
+def run_model(case, last_ops=None, probe_mode="touched", max_ops=2000, trace_limit=64):
     """run the reference machine on the case. returns (obs, machine)."""
     from flipjump.utils.exceptions import IOReadOnEOF, IODeviceException, FlipJumpException
     m = fjmodel.Machine(case['w'], case_segments(case), case_words(case), last_ops)
